@@ -350,6 +350,56 @@ def check_case(case, ctx):
                 ctx.violation('exactly-the-input-regions-each-once', f'{K}/long-lived-sorter-differs-from-a-fresh-one',
                               f'{desc}: a fresh sorter orders the regions {[s[1] for s in after]}, one that has sorted other pages before: {order2}', sub)
                 continue
+        # history on ONE sorter object: this page, then the same regions WITHOUT any text line (a page whose line detection found nothing), then
+        # this page again - every page must come back with its regions intact, whatever the sorter saw before
+        if name == 'smart' and 2 <= len(polygons) <= 3 and env == 0 and not case.get('gray'):
+            import configparser
+            from pero_ocr.layout_engines.smart_sorter import SmartRegionSorter
+            cfg = configparser.ConfigParser()
+            cfg['S'] = {'FakeIntersectionParameter': str(param)}
+            one = SmartRegionSorter(cfg['S'])
+            img = np.zeros((100, 1000, 3), dtype=np.uint8)
+            bad_h = None
+            for step, with_lines in enumerate((True, False, True)):
+                pg = build_page(polygons, skew, case.get('lv', 0), ints=bool(case.get('ints')), lineids=case.get('lineids', 0), rtl=bool(case.get('rtl')), env=env)
+                if not with_lines:
+                    for r in pg.regions:
+                        r.lines = []
+                b_h = snapshot(pg)
+                old_rl = sys.getrecursionlimit()
+                sys.setrecursionlimit(400)
+                try:
+                    with ctx.time_limit(5.0), np.errstate(all='ignore'):
+                        o_h = one.process_page(img, pg)
+                    a_h = snapshot(o_h)
+                except CaseTimeout:
+                    bad_h = f'page {step + 1}: no result within 5 s'
+                except Exception as e:  # noqa
+                    bad_h = f'page {step + 1}: {type(e).__name__}: {e}'
+                finally:
+                    sys.setrecursionlimit(old_rl)
+                ctx.executed()
+                if bad_h:
+                    break
+                bm = {x[0]: x for x in b_h}
+                if sorted(x[0] for x in a_h) != sorted(bm):
+                    bad_h = f'page {step + 1}: {len(b_h)} regions in, {len(a_h)} out'
+                    break
+                for x in a_h:
+                    if not same_ring(bm[x[0]][4], x[4], 1e-6) or any(la[4].shape != lb[4].shape or not (np.abs(la[4] - lb[4]).max() <= 1e-6)
+                                                                    for lb, la in zip(bm[x[0]][5], x[5])):
+                        bad_h = (f'page {step + 1} ({"with" if with_lines else "without"} text lines): region {x[1]} polygon {bm[x[0]][4].tolist()} '
+                                 f'came back as {x[4].round(4).tolist()}')
+                        break
+                if bad_h:
+                    break
+            if bad_h:
+                ctx.violation('regions-intact', f'{K}/one-sorter-page-with-lines-then-the-regions-without-lines/region-content-changed',
+                              f'{desc}; one sorter object is given this page, then the same regions without text lines, then this page again: {bad_h}', sub)
+                continue
+            ctx.tag('page-without-lines-after-a-page-with-lines-on-one-sorter')
+            if skew != 0:
+                ctx.tag('page-without-lines-after-a-slanted-page-on-one-sorter')
         ctx.outcome((name, tuple(s[1] for s in after)))
         if [s[1] for s in after] != [s[1] for s in before]:
             ctx.nontrivial((what, skew, name, param), 'order-actually-changed')
@@ -374,6 +424,6 @@ def describe(tier):
         'bounds': BOUNDS[tier], 'alphabets': {'boxes': len(BOXES), 'overlapping': OVERLAPPING, 'polygons': POLYS, 'skews': SKEWS,
                                                'FakeIntersectionParameter': INTERSECT, 'ImageWidthDenominator': DENOMS, 'page_information': PAGE_INFO},
         'assumptions': ['geometry compared within 1e-6 (the smart sorter rotates by the de-skew angle and back)', 'region ids are unique'],
-        'min_nontrivial': 100, 'required_tags': ['baselines-not-left-to-right', 'line-ids-not-unique-on-the-page', 'more-than-nine-regions', 'integer-coordinate-arrays', 'order-actually-changed', 'de-skew-rotation-applied', 'mutually-overlapping-lists']
+        'min_nontrivial': 100, 'required_tags': ['page-without-lines-after-a-slanted-page-on-one-sorter', 'baselines-not-left-to-right', 'line-ids-not-unique-on-the-page', 'more-than-nine-regions', 'integer-coordinate-arrays', 'order-actually-changed', 'de-skew-rotation-applied', 'mutually-overlapping-lists']
                          + ['sorter-given-' + e for e in PAGE_INFO[1:]] + ['de-skew-with-' + e for e in PAGE_INFO[1:]],
     }
